@@ -134,6 +134,35 @@ class Inventory:
             for cp2, cb2 in self.callers(cp):
                 if cp2 not in by_caller and cp2 != f.path:
                     by_caller.setdefault(cp2, []).append(None)
+        # several sites of one caller (the two arms that pushed an entry) moved into one helper that is called from each of the
+        # old places: every call site has to satisfy the conditions of one of the orphaned entries
+        for cp, sites in sorted(by_caller.items()):
+            root = _ALLCLOS.sub("", cp)
+            cf = self.F.fns.get(cp)
+            real = [cb for cb in sites if cb is not None]
+            if cf is None or len(real) < 2:
+                continue
+            orphans = []
+            for k in sorted(self.table):
+                if not isinstance(self.table[k], dict) or k in self.used or not k.startswith(self.prefix + root):
+                    continue
+                m = re.match(re.escape(self.prefix) + r"(" + re.escape(root) + r"(?:::\{closure#\d+\})*)/" + re.escape(kind_detail) + r"/\d+$", k)
+                if m and k[len(self.prefix) + len(m.group(1)) + 1:] not in self.current_keys(m.group(1)):
+                    orphans.append(k)
+            if len(orphans) < 2:
+                continue
+            matched = []
+            for cb in real:
+                have = set(guards) | set(FL.guard_signature(self.F, cf, cb))
+                hit = [k for k in orphans if set(self.table[k].get("guards", [])) <= have or _sk_subsumed(set(self.table[k].get("guards", [])), have)]
+                if not hit:
+                    matched = None
+                    break
+                matched.append(hit[0])
+            if matched:
+                for k in set(matched):
+                    self.used.add(k)
+                return self.table[matched[0]], cp
         for cp, sites in sorted(by_caller.items()):
             root = _ALLCLOS.sub("", cp)
             for k in sorted(self.table):
